@@ -198,6 +198,11 @@ class _SchemaValidator:
     def validate(self, instance: _MapNode, schema_short_id: str):
         try:
             self._validate(instance, schema_short_id)
+        except TypeError as exc:
+            # `jsonschema` expects the keys of a mapping to be
+            # strings (`patternProperties`, `additionalProperties`)
+            raise _ConfigurationParseError('Configuration object',
+                                           f'Invalid mapping key (not a string): {exc}')
         except jsonschema.ValidationError as exc:
             # convert to barectf `_ConfigurationParseError` exception
             contexts = ['Configuration object']
